@@ -162,9 +162,9 @@ def outcome(f, *args, **kwargs):
             import asyncio
             v = asyncio.run(v)
         return Outcome(value=v)
-    except AssumeFailed:
+    except (AssumeFailed, KeyboardInterrupt, SystemExit):
         raise
-    except Exception as e:  # noqa: BLE001  (the point is to observe it)
+    except BaseException as e:  # noqa: BLE001  (the point is to observe it; incl. CancelledError)
         return Outcome(exc=e)
 
 
